@@ -16,6 +16,7 @@ from fractions import Fraction
 import numpy as np
 
 from lib import hbar15 as hb
+from lib import hbar15corr as hc
 from lib import sim
 
 RULE = ("oracle: random programs (1-4 modes; Gaussian gates incl. Xgate/Zgate/Pgate/CXgate/CZgate and daggers, channels, "
@@ -40,6 +41,7 @@ TRUSTED = ["modelled: ops.{Xgate,Zgate}._decompose, ops.{Dgate,Coherent,Vgate,Ga
            "non-Gaussian preparations"]
 
 TOL = 1e-9
+KAPPA_MAX = 1e5     # bosonic states with sum |weights| above this are cancellation dominated: observers skipped
 
 
 # ---------------------------------------------------------------------------------------------- oracle
@@ -78,7 +80,8 @@ def collect(sf, spec, backend, h, plan, seed):
             last = dict(means=hb.observe(sf, st, dict(m="means"), h), cov=hb.observe(sf, st, dict(m="cov"), h))
         elif backend == "bosonic":
             last = dict(means=hb.observe(sf, st, dict(m="means"), h), cov=hb.observe(sf, st, dict(m="covs"), h))
-        return dict(samples=samples, anc=anc, answers=answers, first=first, last=last)
+        kappa = float(np.sum(np.abs(st.weights()))) if backend == "bosonic" else 1.0
+        return dict(samples=samples, anc=anc, answers=answers, first=first, last=last, kappa=kappa)
     finally:
         sf.hbar = 2
 
@@ -119,19 +122,29 @@ def check_case(ctx, sf, spec, backend, h, plan, seed):
                 ctx.fail(f"{backend}:{key}", f"{backend} hbar={h}: {what} of mode {m} / sqrt(hbar/2) differ: {d}", rp)
                 break
     for key in ref["first"]:
-        d = hb.answers_differ(out["first"][key], ref["first"][key], TOL)
+        d = hb.answers_differ(out["first"][key], ref["first"][key], 1e-8 if backend == "bosonic" else TOL)
         if d:
             ctx.fail(f"{backend}:state-{key}", f"{backend} hbar={h}: state {key} do not scale with hbar: {d}", rp)
     bad_hist = False
+    kappa = max(ref.get("kappa", 1.0), out.get("kappa", 1.0))
+    if kappa > KAPPA_MAX:
+        ctx.tally("skipped:ill-conditioned-weights")
+        return len(ctx.failures) > n0
     for i, c in enumerate(plan):
-        d = hb.answers_differ(out["answers"][i], ref["answers"][i], TOL)
+        tol = max(TOL, 1e-12 * (kappa ** 2 if c["m"] == "purity" else kappa))
+        if tol > 1e-6:
+            continue
+        d = hb.answers_differ(out["answers"][i], ref["answers"][i], tol)
         if not d:
             continue
         # classify: wrong on a fresh state object, or only after earlier calls
         fr = fresh_answer(sf, spec, backend, h, c, seed)
         fr2 = fresh_answer(sf, spec, backend, 2.0, c, seed)
         if hb.answers_differ(fr, fr2, TOL):
-            ctx.fail(f"{backend}:{c['m']}", f"{backend} hbar={h}: {c['m']}({ {k: v for k, v in c.items() if k != 'm'} }) "
+            sig = f"{backend}:{c['m']}"
+            if backend == "gaussian" and c["m"] == "parity_expectation" and len(c["modes"]) < spec["n"]:
+                sig += ":subset-of-modes"
+            ctx.fail(sig, f"{backend} hbar={h}: {c['m']}({ {k: v for k, v in c.items() if k != 'm'} }) "
                      f"depends on hbar: {d}"[:400], rp)
         else:
             bad_hist = True
@@ -197,6 +210,61 @@ def oracle(ctx, sf):
         utils_states_check(ctx, sf, rng)
 
 
+# ---------------------------------------------------------------------------------------------- correspondence
+
+def correspondence(ctx, sf):
+    fcases = hc.frontend_cases(ctx, sf, ctx.n(210, 2100))
+    rcases = hc.result_cases(ctx, sf, ctx.n(28, 280))
+    scases = hc.state_cases(ctx, sf, ctx.n(210, 2100))
+    ucases = []
+    from strawberryfields.utils import states as us
+    for it in range(ctx.n(14, 140)):
+        h = hc.HBARS[it % len(hc.HBARS)]
+        r, phi = ctx.rng.randint(0, 8) / 4, math.atan2(*reversed(hc.circle(ctx.rng)))
+        a = r * complex(math.cos(phi), math.sin(phi))
+        mu, V = us.coherent_state(r, phi, basis="gaussian", hbar=h)
+        ucases.append((dict(op="hbar.utils", s=hc.fr(math.sqrt(h / 2)), re=hc.fr(a.real), im=hc.fr(a.imag)),
+                       [float(mu[0]), float(mu[1]), float(V[0, 0]), float(V[1, 1]), float(V[0, 1])], dict(hbar=h, r=r, phi=phi)))
+    answers = ctx.lean([c[0] for c in fcases + rcases + scases + ucases])
+    k = 0
+    for req, real, case in fcases:
+        model = answers[k]; k += 1
+        ctx.corr_cases += 1
+        nt = any(o["cls"] != "free" for o in case["ops"]) and case["hbar"] != 2
+        ctx.count(f"corr:frontend:hbar={case['hbar']}", case, nt, sample=case)
+        for o in case["ops"]:
+            ctx.tally("corr:op:" + o["cls"] + (":dagger" if o.get("dagger") else ""))
+        if isinstance(model, dict) or not hc.calls_equal(model, real):
+            ctx.disagree("Hbar.compile vs ops.py _apply/_decompose argument trace", case, str(model)[:400], str(real)[:400])
+    for req, real, case in rcases:
+        model = answers[k]; k += 1
+        ctx.corr_cases += 1
+        ctx.count("corr:result", case, case["hbar"] != 2)
+        ok = (not isinstance(model, dict) or "__error__" not in model) and real["avg"] is None \
+            and hc.close(hc.unfr(model["homodyne"]), real["homodyne"]) and hc.close(hc.unfr(model["msgate"]), real["msgate"])
+        if not ok:
+            ctx.disagree("Hbar.homodyneResult/msgateResult vs MeasureHomodyne/MSgate._apply return value", case,
+                         str(model)[:300], str(real)[:300])
+    for req, real, case in scases:
+        model = answers[k]; k += 1
+        ctx.corr_cases += 1
+        ctx.count(f"corr:state:n={case['n']}", case, case["hbar"] != 2)
+        d = "model error" if isinstance(model, dict) else hc.answers_equal(model, real)
+        if d:
+            ctx.disagree("Hbar.history step vs BaseGaussianState methods", case, str(d)[:300], str(real)[:300])
+    for req, real, case in ucases:
+        model = answers[k]; k += 1
+        ctx.corr_cases += 1
+        ctx.count("corr:utils", case, case["hbar"] != 2)
+        ok = not isinstance(model, dict)
+        if ok:
+            m = [hc.unfr(x) for x in model]
+            ok = hc.close(m[0], real[0], 1e-12) and hc.close(m[1], real[1], 1e-12) and hc.close(m[2], real[2], 1e-12) \
+                and hc.close(m[2], real[3], 1e-12) and real[4] == 0
+        if not ok:
+            ctx.disagree("Hbar.utilsCoherent vs utils.states.coherent_state", case, str(model)[:200], str(real)[:200])
+
+
 # ---------------------------------------------------------------------------------------------- entry points
 
 def run_corpus(ctx, sf):
@@ -222,6 +290,8 @@ def run(ctx, sf):
     sf.hbar = 2
     try:
         run_corpus(ctx, sf)
+        if ctx.proof_ok:
+            correspondence(ctx, sf)
         oracle(ctx, sf)
     finally:
         sf.hbar = 2
